@@ -15,7 +15,8 @@ TECHNIQUE = 'runtime contract on the bead-model fit (structural identities) + re
 RULE = ('lattice + random draws of slope m in [0.85,1.25] x intercept b in [0,7] x autofluorescence in {0} U [1,5000] x '
         'bead sets of 5..10 populations cut from realistic MEF ladders (blank included when autofluorescence > 0) with >=5 '
         'populations above 3x autofluorescence (recovery); arbitrary positive pairs (>=3) for the structural identities; '
-        'non-trivial = autofluorescence > 0 or a blank population present; distinct = digest(pairs)')
+        'non-trivial = autofluorescence > 0 or a blank population present; distinct = digest(pairs)'
+        ' Also: both curves evaluated on integer arrays/lists/scalars and far below the beads (down to 1e-120).')
 ASSUMPTIONS = ['recovery judged on a 60-point geometric grid over the span of the non-blank beads, tolerance 5%']
 MIN_CHECKS = {'quick': 15000, 'thorough': 400000}
 REQUIRED_COUNTERS = ['chk:fit', 'chk:recovery', 'chk:refusal']
